@@ -666,14 +666,23 @@ func ruleC19AllocBound(r *Run, p *Program, rule string) {
 			// guarded in its own function, or the call chain leading here is guarded
 			okv := false
 			var at ssa.Instruction = in
+			root := stripConv(size)
 			for c := n.Ctx; c != nil && !okv; c = c.Parent {
-				if controlledBy(c.Fn, at, func(cd *Cond) bool { return boundsTainted(cd, t) }) {
+				rt := root
+				if controlledBy(c.Fn, at, func(cd *Cond) bool { return boundsTainted(cd, t) && boundsValue(cd, t, rt) }) {
 					okv = true
 				}
 				at = c.Site
 				if at == nil {
 					break
 				}
+				// in the caller the size is the argument the parameter was bound to (anything else is bounded in its own frame only)
+				par, isPar := root.(*ssa.Parameter)
+				cc := callOf(c.Site)
+				if !isPar || cc == nil || cc.IsInvoke() || paramIndex(par) < 0 || paramIndex(par) >= len(cc.Args) {
+					break
+				}
+				root = stripConv(cc.Args[paramIndex(par)])
 			}
 			r.check(okv, rule, key, p.Pos(in.Pos()),
 				"the allocation sized by a length decoded from the file is reachable only after that length was compared with a bound not derived from file contents",
@@ -762,6 +771,46 @@ func boundsTainted(c *Cond, t map[ssa.Value]bool) bool {
 	return op == token.GTR || op == token.GEQ
 }
 
+// boundsValue: the file-derived side of the comparison contains the value itself (as a term of a sum or product of
+// non-negative quantities), so that the comparison bounds that value and not some other decoded field.
+func boundsValue(c *Cond, t map[ssa.Value]bool, v ssa.Value) bool {
+	side := c.X
+	if !t[c.X] {
+		side = c.Y
+	}
+	return monotoneTerm(side, v, 0)
+}
+
+func monotoneTerm(e, v ssa.Value, d int) bool {
+	if d > 10 || e == nil {
+		return false
+	}
+	e = stripConv(e)
+	if e == v {
+		return true
+	}
+	if bo, ok := e.(*ssa.BinOp); ok {
+		switch bo.Op {
+		case token.ADD, token.MUL:
+			return monotoneTerm(bo.X, v, d+1) || monotoneTerm(bo.Y, v, d+1)
+		}
+	}
+	return false
+}
+
+func stripConv(v ssa.Value) ssa.Value {
+	for {
+		switch x := v.(type) {
+		case *ssa.Convert:
+			v = x.X
+		case *ssa.ChangeType:
+			v = x.X
+		default:
+			return v
+		}
+	}
+}
+
 // wrapFree reports whether the integer expression v is evaluated without possible wrap-around, looking down to loads,
 // calls, constants and widening conversions into 64 bits.
 func wrapFree(v ssa.Value, d int) bool {
@@ -834,6 +883,11 @@ func ruleC15Thresholds(r *Run, p *Program, rule string) {
 						}
 					}
 				})
+				if inCycle(b) {
+					// skipping a segment goes on to the next one: the loop is not left
+					stays := b.Succs[0] == b || sameCycle(b.Succs[0], b)
+					r.check(stays, rule, funcKey(f)+":"+strings.TrimPrefix(thr, "pogreb.Options.")+":skip-continues", p.Pos(c.If.Cond.Pos()), "a segment below the threshold is skipped and the scan goes on", "a segment below the threshold ends the scan instead of being skipped: every older segment behind a small one (typically the current segment right after a rollover) is hidden from compaction and nothing is reclaimed")
+				}
 				if app != nil {
 					skips := edgeDominatesNot(f, b, 0, app)
 					r.check(skips, rule, funcKey(f)+":"+strings.TrimPrefix(thr, "pogreb.Options.")+":skip-edge", p.Pos(c.If.Cond.Pos()), "below the threshold the segment is not picked", "the segment is picked when below the threshold and skipped otherwise (inverted test)")
